@@ -8,7 +8,7 @@
 //! response receiving correct headers and [`extensions`].
 use crate::prelude::{chrono::*, *};
 #[allow(unused_imports)]
-use std::cell::UnsafeCell;
+use tokio::sync::OnceCell;
 use std::{borrow::Borrow, hash::Hash};
 
 /// The HTTP date time format in the [`time`] format.
@@ -301,24 +301,20 @@ impl CompressionOptions {
 /// A response with a lazily compressed body.
 ///
 /// The compressed body is cached.
-/// It therefore uses `unsafe` to mutate the [`Option`]s containing the compressed data.
-/// This should be fine; we only write once, if the value is [`None`].
+/// Each compressed version is computed and written once; concurrent requests for it wait for the first.
 #[derive(Debug)]
 #[must_use]
 pub struct CompressedResponse {
     identity: Response<Bytes>,
-    // `TODO`: write atomics
     #[cfg(feature = "gzip")]
-    gzip: UnsafeCell<Option<Bytes>>,
+    gzip: OnceCell<Bytes>,
     #[cfg(feature = "br")]
-    br: UnsafeCell<Option<Bytes>>,
+    br: OnceCell<Bytes>,
     #[cfg(feature = "zstd")]
-    zstd: UnsafeCell<Option<Bytes>>,
+    zstd: OnceCell<Bytes>,
 
     compress: CompressPreference,
 }
-unsafe impl Send for CompressedResponse {}
-unsafe impl Sync for CompressedResponse {}
 impl CompressedResponse {
     /// Compress MUST be [`CompressPreference::None`] if we are going to stream.
     pub(crate) fn new(
@@ -358,26 +354,14 @@ impl CompressedResponse {
         Self {
             identity,
             #[cfg(feature = "gzip")]
-            gzip: UnsafeCell::new(None),
+            gzip: OnceCell::new(),
             #[cfg(feature = "br")]
-            br: UnsafeCell::new(None),
+            br: OnceCell::new(),
             #[cfg(feature = "zstd")]
-            zstd: UnsafeCell::new(None),
+            zstd: OnceCell::new(),
 
             compress,
         }
-    }
-    #[cfg(feature = "gzip")]
-    fn gzip(&self) -> &Option<Bytes> {
-        unsafe { &*self.gzip.get() }
-    }
-    #[cfg(feature = "br")]
-    fn br(&self) -> &Option<Bytes> {
-        unsafe { &*self.br.get() }
-    }
-    #[cfg(feature = "zstd")]
-    fn zstd(&self) -> &Option<Bytes> {
-        unsafe { &*self.zstd.get() }
     }
     /// Gets the response with an uncompressed body.
     #[inline]
@@ -606,31 +590,27 @@ impl CompressedResponse {
     /// as it is available with any set of features
     #[cfg(feature = "gzip")]
     pub async fn get_gzip(&self, level: u32) -> &Bytes {
-        if self.gzip().is_none() {
-            let bytes = self.identity.body().clone();
-            let buffer = threading::spawn_blocking(move || {
-                let mut buffer = utils::WriteableBytes::with_capacity(bytes.len() / 3 + 64);
+        self.gzip
+            .get_or_init(|| async {
+                let bytes = self.identity.body().clone();
+                threading::spawn_blocking(move || {
+                    let mut buffer = utils::WriteableBytes::with_capacity(bytes.len() / 3 + 64);
 
-                // 1-9, 1 is fast, 9 is slow. 4 is equal to brotli's 3
-                let mut c =
-                    flate2::write::GzEncoder::new(&mut buffer, flate2::Compression::new(level));
-                c.write_all(&bytes).expect("Failed to compress using gzip!");
-                c.finish().expect("Failed to compress using gzip!");
+                    // 1-9, 1 is fast, 9 is slow. 4 is equal to brotli's 3
+                    let mut c = flate2::write::GzEncoder::new(
+                        &mut buffer,
+                        flate2::Compression::new(level),
+                    );
+                    c.write_all(&bytes).expect("Failed to compress using gzip!");
+                    c.finish().expect("Failed to compress using gzip!");
 
-                let buffer = buffer.into_inner();
-                buffer.freeze()
+                    let buffer = buffer.into_inner();
+                    buffer.freeze()
+                })
+                .await
+                .unwrap()
             })
             .await
-            .unwrap();
-
-            // Last check to make sure we don't override any value.
-            if self.gzip().is_none() {
-                // maybe shooting myself in the foot...
-                // but should be OK, since we only set it once, otherwise it's None.
-                unsafe { (*self.gzip.get()).replace(buffer) };
-            }
-        }
-        self.gzip().as_ref().unwrap()
     }
     /// Gets the Brotli compressed version of [`CompressedResponse::get_identity()`]
     ///
@@ -638,31 +618,26 @@ impl CompressedResponse {
     /// as it is available with any set of features
     #[cfg(feature = "br")]
     pub async fn get_br(&self, level: u32) -> &Bytes {
-        if self.br().is_none() {
-            let bytes = self.identity.body().clone();
-            let buffer = threading::spawn_blocking(move || {
-                let mut buffer = utils::WriteableBytes::with_capacity(bytes.len() / 3 + 64);
+        self.br
+            .get_or_init(|| async {
+                let bytes = self.identity.body().clone();
+                threading::spawn_blocking(move || {
+                    let mut buffer = utils::WriteableBytes::with_capacity(bytes.len() / 3 + 64);
 
-                // 1-10, 1 is fast, 10 is really slow
-                let mut c = brotli::CompressorWriter::new(&mut buffer, 4096, level, 21);
-                c.write_all(&bytes)
-                    .expect("Failed to compress using Brotli!");
-                c.flush().expect("Failed to compress using Brotli!");
-                c.into_inner();
+                    // 1-10, 1 is fast, 10 is really slow
+                    let mut c = brotli::CompressorWriter::new(&mut buffer, 4096, level, 21);
+                    c.write_all(&bytes)
+                        .expect("Failed to compress using Brotli!");
+                    c.flush().expect("Failed to compress using Brotli!");
+                    c.into_inner();
 
-                let buffer = buffer.into_inner();
-                buffer.freeze()
+                    let buffer = buffer.into_inner();
+                    buffer.freeze()
+                })
+                .await
+                .unwrap()
             })
             .await
-            .unwrap();
-            // Last check to make sure we don't override any value.
-            if self.br().is_none() {
-                // maybe shooting myself in the foot...
-                // but should be OK, since we only set it once, otherwise it's None.
-                unsafe { (*self.br.get()).replace(buffer) };
-            }
-        }
-        self.br().as_ref().unwrap()
     }
     /// Gets the Zstd compressed version of [`CompressedResponse::get_identity()`]
     ///
@@ -670,38 +645,33 @@ impl CompressedResponse {
     /// as it is available with any set of features
     #[cfg(feature = "zstd")]
     pub async fn get_zstd(&self, level: i32) -> &Bytes {
-        if self.zstd().is_none() {
-            let bytes = self.identity.body().clone();
-            let buffer = threading::spawn_blocking(move || {
-                let mut buffer = utils::WriteableBytes::with_capacity(bytes.len() / 3 + 64);
+        self.zstd
+            .get_or_init(|| async {
+                let bytes = self.identity.body().clone();
+                threading::spawn_blocking(move || {
+                    let mut buffer = utils::WriteableBytes::with_capacity(bytes.len() / 3 + 64);
 
-                let mut encoder = zstd::Encoder::new(&mut buffer, level).unwrap();
-                #[cfg(feature = "zstd-multithread")]
-                #[allow(clippy::cast_possible_truncation)]
-                // we won't saturate a u32!!
-                if let Err(err) = encoder
-                    .multithread(std::thread::available_parallelism().map_or(8, |v| v.get() as u32))
-                {
-                    error!("Failed to enable multithread support for zstd: {err}");
-                }
-                encoder
-                    .write_all(&bytes)
-                    .expect("Failed to compress using Zstd!");
-                encoder.finish().expect("Failed to compress using Zstd!");
+                    let mut encoder = zstd::Encoder::new(&mut buffer, level).unwrap();
+                    #[cfg(feature = "zstd-multithread")]
+                    #[allow(clippy::cast_possible_truncation)]
+                    // we won't saturate a u32!!
+                    if let Err(err) = encoder.multithread(
+                        std::thread::available_parallelism().map_or(8, |v| v.get() as u32),
+                    ) {
+                        error!("Failed to enable multithread support for zstd: {err}");
+                    }
+                    encoder
+                        .write_all(&bytes)
+                        .expect("Failed to compress using Zstd!");
+                    encoder.finish().expect("Failed to compress using Zstd!");
 
-                let buffer = buffer.into_inner();
-                buffer.freeze()
+                    let buffer = buffer.into_inner();
+                    buffer.freeze()
+                })
+                .await
+                .unwrap()
             })
             .await
-            .unwrap();
-            // Last check to make sure we don't override any value.
-            if self.zstd().is_none() {
-                // maybe shooting myself in the foot...
-                // but should be OK, since we only set it once, otherwise it's None.
-                unsafe { (*self.zstd.get()).replace(buffer) };
-            }
-        }
-        self.zstd().as_ref().unwrap()
     }
 }
 
